@@ -565,14 +565,14 @@ func (z *ZodArray[T, R]) validate(value []any, chks []core.ZodCheck, ctx *core.P
 	var errs []core.ZodRawIssue
 
 	for i := range min(fixed, actual) {
-		if err := validateElement(value[i], z.internals.Items[i]); err != nil {
+		if err := validateElement(value[i], z.internals.Items[i], ctx); err != nil {
 			errs = append(errs, issues.CreateElementValidationIssue(i, "array", value[i], err))
 		}
 	}
 
 	if hasRest && actual > fixed {
 		for i := fixed; i < actual; i++ {
-			if err := validateElement(value[i], z.internals.Rest); err != nil {
+			if err := validateElement(value[i], z.internals.Rest, ctx); err != nil {
 				errs = append(errs, issues.CreateElementValidationIssue(i, "array rest", value[i], err))
 			}
 		}
@@ -585,12 +585,13 @@ func (z *ZodArray[T, R]) validate(value []any, chks []core.ZodCheck, ctx *core.P
 	return value, nil
 }
 
-// validateElement validates a single element against its schema.
-func validateElement(value any, schema core.ZodSchema) error {
+// validateElement validates a single element against its schema, under the
+// parse context of the enclosing collection (per-parse error map, ReportInput).
+func validateElement(value any, schema core.ZodSchema, ctx *core.ParseContext) error {
 	if schema == nil {
 		return nil
 	}
-	_, err := schema.ParseAny(value)
+	_, err := schema.ParseAny(value, ctx)
 	return err
 }
 
